@@ -64,6 +64,41 @@ Theorem C14_abf_czar_gather_frame : forall (A : Type) (G : GrpOps A), GrpLaws G 
 Proof. exact @czar_gather_frame. Qed.
 Print Assumptions C14_abf_czar_gather_frame.
 
+(* write_output_files() performs the gather at EVERY output: after any number of gathers replica 0 holds what it
+   holds after one (every walker's z data once), and -- by the frame theorem -- nobody's own grids have moved. *)
+Theorem C14_abf_czar_gather_repeated : forall (A : Type) (G : GrpOps A) (k : nat) (ws : list (ewalker (A:=A))),
+  Nat.iter (S k) (czar_gather_step G) ws = czar_gather_step G ws.
+Proof. exact @czar_gather_repeated. Qed.
+Print Assumptions C14_abf_czar_gather_repeated.
+
+(* The job is stopped and started again (every eABF walker through its state file: ew_restart keeps the three grids
+   of shared ABF and the z grids): the next gather gives replica 0 the sum of the z grids from before the restart. *)
+Theorem C14_abf_czar_gather_after_restarts : forall (A : Type) (G : GrpOps A), GrpLaws G ->
+  forall t (ws : list (ewalker (A:=A))) j r others,
+  czar_gather_step G (map (ew_restart t) ws) = r :: others -> e_gz r j = msum G (map e_z ws) j.
+Proof. exact @czar_gather_after_restarts. Qed.
+Print Assumptions C14_abf_czar_gather_after_restarts.
+
+(* Sharing enabled by a script ("cv bias <name> share", no "shared on" in the configuration) is the same exchange at
+   the steps the script chooses: C14_abf_union_once quantifies over EExchange ANYWHERE in the trace, share_due is only
+   what update() uses when a frequency is configured.  Two things were particular to that way of enabling it, and
+   wrong before the repairs of round 4:
+   (1) the gather wrote into replica 0's own z grids (czar_gather_step_alias): two outputs in a row leave replica 0
+       with walker 1's sample twice, in its own z grid and in the gathered one; *)
+Theorem C14_abf_czar_gather_alias_refuted :
+  exists r others, czar_gather_step_alias Zgrp (czar_gather_step_alias Zgrp czar_alias_witness) = r :: others /\
+    e_z r 1 = 2 /\ e_gz r 1 = 2 /\ msum Zgrp (map e_z czar_alias_witness) 1 = 1.
+Proof. exact czar_alias_refuted. Qed.
+Print Assumptions C14_abf_czar_gather_alias_refuted.
+
+(* (2) the restarted run did not read the local_*/last_* sections of its own state (w_restart_unshared): two walkers,
+       one sample each, exchange, both restarted, exchange again without any new sample: replica 0 holds 4, fed were 2. *)
+Theorem C14_abf_script_restart_before_repair_refuted :
+  exists w, nth_error (exchange Zgrp 2 (map (w_restart_unshared Zgrp 1) (run Zgrp false script_restart_witness (init Zgrp 2)))) 0 = Some w /\
+    wG w 0 = 4 /\ fed_union Zgrp 2 (script_restart_witness ++ [EExchange 2]) 0 = 2.
+Proof. exact script_restart_refuted. Qed.
+Print Assumptions C14_abf_script_restart_before_repair_refuted.
+
 (* A restart through a state file of the repaired code (last_* saved) is the identity on the three grids, at any
    point of a run -- which is why C14_abf_union_once and C14_abf_interleavings_union_once quantify over traces with
    ERestart / ARestart ANYWHERE, not only at exchange boundaries. *)
